@@ -100,15 +100,24 @@ deriving DecidableEq, Repr
 def lookupExemption (ex : List (Int × Rat)) (y : Int) : Option Rat :=
   (ex.find? (fun p => p.1 = y)).map (·.2)
 
-/-- dividends of tax year `y` (lines whose date has no valid tax year are ignored, as in the code) -/
+def inYear (y : Int) (d : Date) : Bool :=
+  match taxYearOf d with
+  | .ok y' => y' = y
+  | .error _ => false
+
+/-- a DIVIDEND line whose date lies in tax year `y` (lines whose date has no valid tax year are
+    ignored, as in `aggregate_dividends`) -/
+def isDivIn (y : Int) (t : Tx) : Bool :=
+  match t.op with
+  | .dividend _ _ => inYear y t.date
+  | _ => false
+
+def divValue (t : Tx) : Rat := match t.op with | .dividend v _ => v | _ => 0
+def divTaxOf (t : Tx) : Rat := match t.op with | .dividend _ x => x | _ => 0
+
+/-- `aggregate_dividends`, read at year `y`: (income, tax paid) -/
 def dividendsOf (l : List Tx) (y : Int) : Rat × Rat :=
-  l.foldl (fun acc t =>
-    match t.op with
-    | .dividend v tx =>
-      match taxYearOf t.date with
-      | .ok y' => if y' = y then (acc.1 + v, acc.2 + tx) else acc
-      | .error _ => acc
-    | _ => acc) (0, 0)
+  (rsum ((l.filter (isDivIn y)).map divValue), rsum ((l.filter (isDivIn y)).map divTaxOf))
 
 def mkSummary (ex : List (Int × Rat)) (l : List Tx) (y : Int) (ds : List Disposal) :
     Except CalcErr YearSummary :=
@@ -154,11 +163,6 @@ deriving DecidableEq, Repr, Inhabited
 
 def holdingsOf (rs : List TickerResult) : List (String × Pool) :=
   (rs.filterMap (fun r => r.pool.map (fun p => (r.ticker, p)))).mergeSort (fun a b => a.1 ≤ b.1)
-
-def inYear (y : Int) (d : Date) : Bool :=
-  match taxYearOf d with
-  | .ok y' => y' = y
-  | .error _ => false
 
 /-- `build_all_tax_year_summaries` -/
 def allYears (ex : List (Int × Rat)) (l : List Tx) (ds : List Disposal) :
